@@ -99,7 +99,10 @@ PullFrom(cfg, s, l, j, t) ==
   ELSE
      LET a == ch[j] st == s.ad[l][j] IN
      IF IsBuf(a) THEN
+        \* an integration adapter can not answer a repeated request time (zero-length period),
+        \* unless it still lies at or before its first retained entry
         LET ok == st.lab # <<>> /\ st.lab[1] <= t /\ t <= Last(st.lab)
+                  /\ ~(a.k = "integ" /\ t = st.prev /\ t > st.lab[1])
             st2 == IF a.k = "buffer"
                    THEN [st EXCEPT !.lab = EvictSeq(st.lab, t)]
                    ELSE [st EXCEPT !.lab = EvictSeq(st.lab, st.prev), !.prev = t]
